@@ -171,4 +171,7 @@ def parse_tuples(out):
             try:
                 yield json.loads("[" + body + "]")
             except Exception:
-                continue
+                try:   # TLC sets {..} as lists
+                    yield json.loads("[" + body.replace("{", "[").replace("}", "]") + "]")
+                except Exception:
+                    continue
